@@ -222,7 +222,7 @@ def run(tier, seed, replay=None):
     build = lib.Build().run()
     rep.proof = lib.compile_props(PID)
     rng = lib.rng_for(seed, PID)
-    n = 600 if tier == 'quick' else 12000
+    n = 600 if tier == 'quick' else 60000
     cases = []
     for c in range(n):
         txt, want, lists = list_probe(rng)
